@@ -79,6 +79,15 @@ def path(c, job):
         for k in f:
             prod = prod * k
         c.prove("C18.chain scale", s_close_rel(u.convert(root, chain[-1], x), x * prod))
+        # units defined in terms of other units: their callables call convert() themselves
+        yard = u.Unit(base_unit=u.meter, base_to_unit=lambda m: u.convert(u.meter, u.foot, m) / 3, unit_to_base=lambda y: u.convert(u.foot, u.meter, y * 3))
+        fathom = u.Unit(base_unit=yard, base_to_unit=lambda y: y / 2, unit_to_base=lambda fm: fm * 2)
+        cable = u.Unit(base_unit=fathom, base_to_unit=lambda fm: fm / 100, unit_to_base=lambda cb: cb * 100)
+        c.reach("reentrant-units")
+        c.prove("C18.chain reentrant-units", s_close_rel(u.convert(u.meter, fathom, x), x / 0.3048 / 3 / 2))
+        c.prove("C18.chain reentrant-units", s_close_rel(u.convert(fathom, fathom, x), x))
+        c.prove("C18.chain reentrant-units", s_close_rel(u.convert(cable, u.meter, x), x * 100 * 2 * 3 * 0.3048))
+        c.prove("C18.chain reentrant-units", s_close_rel(u.convert(u.inch, cable, u.convert(cable, u.inch, x)), x))
         return
     if kind == "sonar":
         import robotpy_ext.common_drivers.xl_max_sonar_ez as xs
@@ -220,7 +229,7 @@ class C18(Spec):
                     sensors="period in [0,1] s, voltage in [-10,10] V, supply in [-10,10] V, calibration pressure in [0,500]")
 
     def reach_required(self, tier):
-        return ["triple", "chain", "sonar", "sonar2", "pressure", "calibrated", "calibrated-twice"]
+        return ["triple", "chain", "sonar", "sonar2", "pressure", "calibrated", "calibrated-twice", "reentrant-units"]
 
     def path_fn(self, c, job):
         path(c, job)
